@@ -10,7 +10,8 @@ from vlib.harness import Violation
 
 PID = "C04"
 RULE = ("packable types (all leaves incl. key_hash/key/address/signature/timestamp/chain_id/bls, option/or/pair/combs "
-        "of every length 2..7/list/set/map/lambda; depth <=2 quick, <=3 thorough) x boundary-biased values; byte strings "
+        "of every length 2..7/list/set/map/lambda (incl. lambdas over tickets, operations, big maps, contracts), a third of the composite "
+        "types carrying field / type annotations on inner nodes; depth <=2 quick, <=3 thorough) x boundary-biased values; byte strings "
         "= valid packed data mutated (truncation, extension, bit flip, byte set, length-prefix edit, Zarith padding, "
         "insert/delete, prefix byte). Oracle: value.pack() and the PACK instruction == reference PACK (0x05 + optimized "
         "binary Micheline, combs >=4 as sequences) byte for byte; T.unpack / UNPACK T return an equal value; for a "
@@ -57,7 +58,8 @@ def check_value(case):
     v = rv.from_micheline(t, case["v"])
     readable = rv.to_micheline(t, v)
     want = rv.pack(t, v)
-    cls = _cls(t)
+    ta = case.get("ta") or t   # the same type carrying field / type annotations: Tezos lays values out by type structure only
+    cls = _cls(ta)
     try:
         obj = cls.from_micheline_value(readable)
         if case.get("legacy_first"):
@@ -78,7 +80,7 @@ def check_value(case):
         raise Violation("pack() of %s : %s = %s, Tezos PACK = %s" % (readable, _ts(t), got.hex(), want.hex()), case,
                         "pack-bytes:" + _blame(t))
     if rv.is_pushable(t):
-        stk, out, err = interp.run([interp.push(t, readable), {"prim": "PACK"}])
+        stk, out, err = interp.run([interp.push(ta, readable), {"prim": "PACK"}])
         if err is not None:
             raise Violation("PACK instruction failed on %s: %r" % (_ts(t), err.args), case, "PACK-raise:" + _blame(t))
         ty, pv = interp.read_item(stk.items[0])
@@ -95,7 +97,7 @@ def check_value(case):
     if bv != v:
         raise Violation("T.unpack(pack(v)) = %s, v = %s" % (bm, readable), case,
                         "unpack-value:" + _blame(t))
-    res = _unpack_instr(t, want, case)
+    res = _unpack_instr(t, want, case, ta)
     if res is NONE:
         raise Violation("UNPACK %s returned None on the canonical packing %s of %s" % (_ts(t), want.hex(), readable), case,
                         "UNPACK-none:" + _blame(t))
@@ -107,8 +109,8 @@ def check_value(case):
 NONE = "<UNPACK returned None>"
 
 
-def _unpack_instr(t, data, case):
-    stk, out, err = interp.run([interp.push(rv.T("bytes"), {"bytes": data.hex()}), {"prim": "UNPACK", "args": [t]}])
+def _unpack_instr(t, data, case, ta=None):
+    stk, out, err = interp.run([interp.push(rv.T("bytes"), {"bytes": data.hex()}), {"prim": "UNPACK", "args": [ta or t]}])
     if err is not None:
         raise Violation("UNPACK %s failed (must return an option) on %s: %r" % (_ts(t), data.hex(), err.args), case,
                         "UNPACK-raise")
@@ -242,7 +244,10 @@ def _types(depth):
 def value_cases(draw, depth):
     t = draw(_types(depth))
     v = draw(gt.values(t))
-    return {"mode": "value", "t": t, "v": rv.to_micheline(t, v), "legacy_first": draw(st.integers(0, 2)) == 0}
+    case = {"mode": "value", "t": t, "v": rv.to_micheline(t, v), "legacy_first": draw(st.integers(0, 2)) == 0}
+    if draw(st.integers(0, 2)) == 0 and rv.targs(t):
+        case["ta"] = draw(gt.decorate(t))
+    return case
 
 
 @st.composite
@@ -289,6 +294,8 @@ def _prop(case, stats):
     if case["mode"] == "value":
         nt = rv.contains_type(t, OPTIMIZED) or any(x["prim"] == "pair" and len(rv.comb_types(x)) >= 3 for x in _subtypes(t))
         stats.case(case, nt, "value:" + _blame(t), sample={"type": _ts(t), "value": case["v"]})
+        if case.get("ta"):
+            stats.label("annotated-type")
     else:
         d = case["data"]
         nt = res is not None and res != "prefix" and not (res == "unknown-tag" and len(d) >= 4 and int(d[2:4], 16) > 10)
